@@ -695,3 +695,22 @@ def _saturating_mul(ctx, a, b):
     else:
         r = z3.If(z3.UGT(p, H), H, p)
     return simp(z3.Extract(w - 1, 0, r))
+
+
+@model(r'^core::bool::<impl bool>::then_some::<.*>$')
+def _bool_then_some(ctx, b, v):
+    if b is True:
+        return some(v)
+    if b is False:
+        return NONE
+    return mk_option(b, v)
+
+
+@model(r'^core::bool::<impl bool>::then::<.*>$')
+def _bool_then(ctx, b, clos):
+    if b is False:
+        return NONE
+    v = call_under(ctx, b, clos, [])
+    if v is None:
+        return NONE
+    return mk_option(b, v)
